@@ -943,7 +943,7 @@ func c12Compact(r *vhRng, n *big.Int, evil bool) []byte {
 	return append([]byte{byte((k-4)<<2 | 3)}, le(k)...)
 }
 
-var c12HugeLens = []uint64{1 << 16, 1<<16 + 1, 1<<16 + 1025, 1 << 17, 1 << 20, 1 << 24, 1<<24 + 5}
+var c12HugeLens = []uint64{1 << 16, 1<<16 + 1, 1<<16 + 1025, 1<<16 + 1026, 1 << 17, 1 << 20}
 
 type c12Evil struct {
 	r     *vhRng
@@ -962,16 +962,19 @@ func (e *c12Evil) length(n int) []byte {
 		case 1:
 			return c12Compact(e.r, big.NewInt(int64(n+1+e.r.Intn(4))), false)
 		case 2:
+			// (declared lengths are really allocated and cleared: the big ones are kept rare)
 			l := c12HugeLens[e.r.Intn(len(c12HugeLens))]
-			if e.r.Chance(1, 40) {
+			if e.r.Chance(1, 12) {
+				l = 1<<24 + uint64(e.r.Intn(8))
+			} else if e.r.Chance(1, 120) {
 				l = 1 << 28
 			}
 			return c12Compact(e.r, new(big.Int).SetUint64(l), false)
 		default:
-			// any 64-bit length, but nothing between 16 MiB and 4 GiB (those really get allocated)
+			// any 64-bit length, but nothing between 1 MiB and 4 GiB (those really get allocated)
 			l := c11Uint64(e.r)
-			if l > 1<<24 && l <= 1<<32 {
-				l = 1<<24 + l%1024
+			if l > 1<<20 && l <= 1<<32 {
+				l = 1<<20 + l%1024
 			}
 			return c12Compact(e.r, new(big.Int).SetUint64(l), false)
 		}
